@@ -106,6 +106,27 @@ def programs(ctx):
     p.sum([1, 3], 4)
     p.sum([1, 1, 2], 4)
     progs.append(p.d())
+    # sums and differences of money in different currencies while a money converter is active: the exact sum of
+    # the operands' values (in the left operand's currency), rounded ONCE - ties included, every default mode
+    from drivers.calcgen import MODES
+    for dm in (MODES if not quick else MODES[::2]):
+        p = Prog('c03mc-' + dm)
+        p.setmode(dm)
+        p.setconv(True)
+        k = 0
+        for (u, v) in (('Z2', 'Z3'), ('Z3', 'Z2'), ('Z2', 'Z0'), ('Z0', 'Z2')):
+            for j in (range(-12, 40) if not quick else range(-6, 30, 3)):
+                k += 1
+                a = units[u]['quantum'] * (1001 + j)
+                b = units[v]['quantum'] * (10 * j + 5)          # converted amounts that end in a half quantum
+                p.make(1, 'Money', a, u, 'dec')
+                p.make(2, 'Money', b, v, 'frac' if k % 2 else 'dec')
+                p.bin('Add', 1, 2, 3)
+                p.bin('Add', 2, 1, 3)
+                p.bin('Sub', 1, 2, 3)
+                p.neg(2, 4)
+                p.bin('Sub', 1, 4, 3)
+        progs.append(p.d())
     return progs
 
 
